@@ -1546,13 +1546,14 @@ class Data(BaseCartesianData):
 
             comp._data = data
 
+        # no cached mask can be trusted anymore (do this before alerting the
+        # hub, since listeners may re-compute masks straight away)
+        _clear_subset_state_caches()
+
         # alert hub of the change
         if self.hub is not None:
             msg = NumericalDataChangedMessage(self, components_changed=list(mapping.keys()))
             self.hub.broadcast(msg)
-
-        for subset in self.subsets:
-            clear_cache(subset.subset_state.to_mask)
 
     def update_values_from_data(self, data):
         """
@@ -1618,13 +1619,14 @@ class Data(BaseCartesianData):
         # Update data coordinates
         self.coords = data.coords
 
+        # no cached mask can be trusted anymore (do this before alerting the
+        # hub, since listeners may re-compute masks straight away)
+        _clear_subset_state_caches()
+
         # alert hub of the change
         if self.hub is not None:
             msg = NumericalDataChangedMessage(self)
             self.hub.broadcast(msg)
-
-        for subset in self.subsets:
-            clear_cache(subset.subset_state.to_mask)
 
     # The following are methods for accessing the data in various ways that
     # can be overriden by subclasses that want to improve performance.
@@ -2090,6 +2092,22 @@ class Data(BaseCartesianData):
         warnings.warn('Data.visible_components is deprecated', UserWarning)
         return [cid for cid, comp in self._components.items()
                 if not isinstance(comp, CoordinateComponent) and cid.parent is self]
+
+
+def _clear_subset_state_caches():
+    """
+    Clear the memoized masks of all subset state classes.
+
+    The masks are memoized per subset state class and keyed on the identity of
+    the state and the dataset, so when numerical values change, the cached
+    masks of any state (including states nested inside composite states and
+    states evaluated on other datasets through links) may be out of date.
+    """
+    classes = [SubsetState]
+    while classes:
+        cls = classes.pop()
+        clear_cache(cls.__dict__.get('to_mask'))
+        classes.extend(cls.__subclasses__())
 
 
 @contract(i=int, ndim=int)
